@@ -46,7 +46,7 @@ func init() {
 		MinEvals:        floor(200000, 3000000),
 		MinDistinct:     floor(8000, 150000),
 		RequiredCells: func(string) []string {
-			return []string{"mut/bitflip", "mut/delete", "mut/insert", "mut/substitute", "mut/field-rewrite", "mut/sig-other-key", "mut/sig-transplant", "mut/sig-truncated", "mut/sig-zeroed", "mut/sig-junk", "mut/sig-junk-on-rewritten-payload", "mut/sig-extended", "mut/sig-by-did-prefix-colliding-key", "mut/header-swap", "mut/header-swap-resigned", "mut/own-header-variant-resigned", "mut/signed-over-dagjson-text", "mut/genuine-envelope-spliced-into-nonce", "mut/extra-key-resigned", "mut/extra-key-after-tag-resigned", "mut/extra-key-before-tag-resigned", "mut/second-payload-resigned", "mut/iss-key-bytes-under-other-multicodec-resigned", "mut/optional-principal-empty-resigned", "mut/iss-as-did-url-resigned", "mut/other-tag-resigned", "mut/json-field-rewrite", "mut/json-char-edit",
+			return []string{"mut/bitflip", "mut/delete", "mut/insert", "mut/substitute", "mut/field-rewrite", "mut/sig-other-key", "mut/sig-transplant", "mut/sig-truncated", "mut/sig-zeroed", "mut/sig-junk", "mut/sig-junk-on-rewritten-payload", "mut/sig-extended", "mut/sig-by-did-prefix-colliding-key", "mut/header-swap", "mut/header-swap-resigned", "mut/own-header-variant-resigned", "mut/signed-over-dagjson-text", "mut/genuine-envelope-spliced-into-nonce", "mut/extra-key-resigned", "mut/extra-key-after-tag-resigned", "mut/extra-key-before-tag-resigned", "mut/second-payload-resigned", "mut/iss-key-bytes-under-other-multicodec-resigned", "mut/optional-principal-empty-resigned", "mut/iss-as-did-url-resigned", "mut/unusual-spelling-resigned", "mut/other-tag-resigned", "mut/json-field-rewrite", "mut/json-char-edit",
 				"concurrent", "concurrent/genuine", "concurrent/forged", "concurrent/large", "outcome/rejected", "outcome/accepted-same-content", "base/dlg", "base/inv", "base/ed25519", "base/non-ed25519"}
 		},
 	})
@@ -789,6 +789,39 @@ func runC06(w *mon.W) {
 					}
 					if enc, err := ref.EncodeDagJson(re); err == nil {
 						c06Offer(w, b, "iss-as-did-url-resigned", enc, "dagjson", decs)
+					}
+				}
+			}
+		}
+		// 6e. VALID-but-unusual spellings of signed fields, re-signed by the issuer: the token that
+		// comes out shows the field as it was signed (a decoder that tidies a value up after the
+		// signature was checked hands out content nobody signed), or nothing comes out
+		if mine() {
+			type fv struct {
+				f string
+				v ref.V
+			}
+			var vars []fv
+			for _, c := range []string{"/crud//delete", "//", "/a/", "/a//", "//a", "/a///b", "/a/./b", "/a/../b", "/a/b/..", "/a/%2f/b", "/a/b%20c", "/a b", "/ a", "/a/\u00e4", "/a\t", "/a/b\x00", "/a/*", "/*", "/a\\b", "/a/b/", "/.", "/a/b?x=1", "/a/b#c"} {
+				vars = append(vars, fv{"cmd", ref.Str(c)})
+			}
+			vars = append(vars, fv{"nonce", ref.Bytes([]byte{0})}, fv{"nonce", ref.Bytes(bytes.Repeat([]byte{0}, 12))}, fv{"nonce", ref.Bytes(bytes.Repeat([]byte{0xff}, 64))},
+				fv{"meta", ref.Map(ref.E("", ref.Str("")))}, fv{"meta", ref.Map(ref.E("k", ref.Map()), ref.E("l", ref.List()))})
+			for _, v := range vars {
+				val := v.v
+				p := withField(b.info.Payload, v.f, &val)
+				want, err := gen.FieldsFromPayload(b.info.Tag, p)
+				if err != nil {
+					continue
+				}
+				b2 := *b
+				b2.fields = want
+				if re, err := ref.SignEnvelope(def.iss.Priv, nil, b.info.Tag, p); err == nil {
+					if enc, err := ref.EncodeDagCbor(re); err == nil {
+						c06Offer(w, &b2, "unusual-spelling-resigned", enc, "dagcbor", decs)
+					}
+					if enc, err := ref.EncodeDagJson(re); err == nil {
+						c06Offer(w, &b2, "unusual-spelling-resigned", enc, "dagjson", decs)
 					}
 				}
 			}
